@@ -29,6 +29,8 @@ func (jenny validationMethods) generateForObject(buffer *strings.Builder, contex
 		return nil
 	}
 
+	// named collections being followed, to stay finite on self-referential ones (`#List: [...#List]`)
+	followedRefs := map[string]bool{}
 	var resolvesToConstraints func(typeDef ast.Type) bool
 	resolvesToConstraints = func(typeDef ast.Type) bool {
 		if typeDef.IsAny() {
@@ -40,7 +42,20 @@ func (jenny validationMethods) generateForObject(buffer *strings.Builder, contex
 		}
 
 		if typeDef.IsRef() {
-			return context.ResolveRefs(typeDef).IsStruct()
+			resolved := context.ResolveRefs(typeDef)
+			// references to named arrays/maps: their items may carry constraints too
+			if resolved.IsArray() || resolved.IsMap() {
+				refName := typeDef.AsRef().String()
+				if followedRefs[refName] {
+					return false
+				}
+				followedRefs[refName] = true
+				defer delete(followedRefs, refName)
+
+				return resolvesToConstraints(resolved)
+			}
+
+			return resolved.IsStruct()
 		}
 
 		if typeDef.IsScalar() {
